@@ -805,6 +805,13 @@ func main() {
 		runCloneBase(*repo, *out)
 		return
 	}
+	if *which == "gconfigextract" {
+		if *out == "" {
+			*out = "../lean/Generated/GoGConfigExtract.lean"
+		}
+		runGConfigExtract(*repo, *out)
+		return
+	}
 	if *which == "genumvalues" {
 		if *out == "" {
 			*out = "../lean/Generated/GoGenumValues.lean"
